@@ -8,7 +8,7 @@ use penguin_mux::{Datagram, MuxStream};
 use std::io;
 use std::net::{Ipv4Addr, Ipv6Addr, SocketAddr};
 use thiserror::Error;
-use tokio::net::{TcpSocket, ToSocketAddrs, UdpSocket, lookup_host};
+use tokio::net::{TcpSocket, TcpStream, ToSocketAddrs, UdpSocket, lookup_host};
 use tokio::sync::mpsc;
 use tracing::{debug, trace};
 
@@ -64,15 +64,16 @@ async fn bind_udp_for_target<T: ToSocketAddrs>(
     .await
 }
 
-/// Similar to `bind_udp_for_target`, but for TCP sockets. It returns a `TcpSocket`
-/// instead of a connected `TcpStream`.
+/// Similar to `bind_udp_for_target`, but for TCP sockets: bind and connect to the
+/// first address of the target that accepts the connection, like
+/// `TcpStream::connect` does.
 #[tracing::instrument(skip(target), level = "trace")]
 #[inline]
-async fn bind_tcp_for_target<T: ToSocketAddrs>(
+async fn connect_tcp_for_target<T: ToSocketAddrs>(
     target: T,
     outgoing_from_v4: Ipv4Addr,
     outgoing_from_v6: Ipv6Addr,
-) -> io::Result<(TcpSocket, SocketAddr)> {
+) -> io::Result<TcpStream> {
     resolve_and_try(target, async move |sock_addr: SocketAddr| {
         let socket;
         if sock_addr.is_ipv4() {
@@ -82,7 +83,8 @@ async fn bind_tcp_for_target<T: ToSocketAddrs>(
             socket = TcpSocket::new_v6()?;
             socket.bind((outgoing_from_v6, 0).into())?;
         }
-        Ok((socket, sock_addr))
+        debug!("bound to {:?}", socket.local_addr());
+        socket.connect(sock_addr).await
     })
     .await
 }
@@ -183,14 +185,8 @@ pub(super) async fn tcp_forwarder_on_channel(
     let rhost = std::str::from_utf8(&channel.dest_host)?;
     let rport = channel.dest_port;
     trace!("attempting TCP connect to {rhost} port={rport}");
-    let (socket, target) =
-        bind_tcp_for_target((rhost, rport), outgoing_from_v4, outgoing_from_v6).await?;
-    // `expect`: at this point `listener` should be bound. Otherwise, it's a bug.
-    let local_addr = socket
-        .local_addr()
-        .expect("Failed to get local address of TCP socket (this is a bug)");
-    debug!("bound to {local_addr}");
-    let rstream = socket.connect(target).await?;
+    let rstream =
+        connect_tcp_for_target((rhost, rport), outgoing_from_v4, outgoing_from_v6).await?;
     // Here `rstream` should be connected. Pass the error (unlikely) otherwise
     debug!("TCP forwarding to {}", rstream.peer_addr()?);
     channel.into_copy_bidirectional(rstream).await?;
